@@ -250,7 +250,7 @@ static bool isMaxLevelValid(KSI_uint64_t val) {
 
 static bool isAggrAlgoValid(KSI_uint64_t val) {
 	/* Unknown values are discarded. */
-	return !!KSI_isHashAlgorithmTrusted((KSI_HashAlgorithm)val);
+	return val <= 0xff && !!KSI_isHashAlgorithmTrusted((KSI_HashAlgorithm)val);
 }
 
 static bool isAggrPeriodValid(KSI_uint64_t val) {
